@@ -262,11 +262,13 @@ def RunNoise(tag, tlc_cases, max_sites, simulate=None, depth=None, seed=None,
   return _Printed(r.out, 'PLACE'), r
 
 
-def RunFills(tag, max_len, timeout=900):
+def RunFills(tag, max_len, timeout=900, simulate=None, seed=None):
   cfg = _WriteCfg('LLexFill_%s.cfg' % tag, (
       'SPECIFICATION Spec\nCONSTANTS\n  MaxLen = %d\n'
       'INVARIANT FillInert\nCHECK_DEADLOCK FALSE\n') % max_len)
   r = tlc.Run('LLexFill', cfg=cfg, coverage=True, timeout=timeout,
+              simulate=simulate, seed=seed, depth=max_len + 2,
+              workers=4 if simulate else None,
               tag='fill_' + tag, env={'JAVA_TOOL_OPTIONS': '-Xss64m'})
   return _Printed(r.out, 'FILL'), r
 
@@ -355,6 +357,11 @@ def Facts(rules, hs_class):
       spans.add((Hid(x.heritage), x.start, x.stop, str(x)))
   Go(rules)
   return H, sorted(spans), sorted(lits)
+
+
+import warnings
+warnings.filterwarnings('ignore', category=SyntaxWarning)
+warnings.filterwarnings('ignore', category=DeprecationWarning)
 
 
 def ParseFacts(text, import_root=None, want_facts=True):
